@@ -276,6 +276,8 @@ class Sandbox:
             dirs.add(("w", "d1"))
         if wd == "full":
             files[("w", "d1", "keep.txt")] = "keep\n"
+        for f in pre.get("stale", []):
+            files[("w", f)] = "stale\n"
         if wd == "file":
             files[("w", "d1")] = "a regular file where work_in wants its directory\n"
         files[("opt", "fake_exe")] = FAKE_EXE        # like Config.<PROG>.path given explicitly: its directory is NOT on PATH
@@ -354,8 +356,16 @@ class Sandbox:
             cwd = self.rel(os.getcwd())
         except OSError:
             cwd = ["<deleted>"]
+        content = {}
+        for f in files:
+            if f[0] == "w":
+                try:
+                    with open(self.p(*f)) as fh:
+                        content[f] = fh.read(64)
+                except OSError:
+                    pass
         return {"cwd": cwd, "env": dict(os.environ), "dirs": sorted(dirs), "files": sorted(files),
-                "cfg": self.cfg_tree()}
+                "cfg": self.cfg_tree(), "content": content}
 
     def cleanup(self):
         os.chdir("/")
@@ -387,6 +397,8 @@ class Script:
             elif a[0] == "mkfile":
                 with open(a[1], "w") as fh:
                     fh.write("made\n")
+            elif a[0] == "mkempty":            # a zero-byte file (e.g. an output the program only touched)
+                open(a[1], "w").close()
             elif a[0] == "mkdir":
                 os.mkdir(a[1])
             elif a[0] == "setenv":
@@ -407,6 +419,11 @@ class Script:
                     from autode.wrappers.keywords.functionals import pbe
                     Config.ORCA.keywords.sp.functional = pbe
                     key = "ORCA"
+                elif a[1] in ("steps_min", "steps_max", "max_core", "cores"):
+                    # interdependent options, changed in an order that is valid at every moment
+                    key, val = {"steps_min": ("min_step_size", 0.01), "steps_max": ("max_step_size", 0.02),
+                                "max_core": ("max_core", 1000), "cores": ("n_cores", 2)}[a[1]]
+                    setattr(Config, key, val)
                 elif a[1] == "addkey":         # a key that did not exist (only possible through __dict__)
                     Config.__dict__["c16_added"] = 1
                     key = "c16_added"
@@ -422,7 +439,7 @@ class Script:
         for i, a in enumerate(self.acts):
             if a[0] == "chdir":
                 out.append(f"AChdir {cpath(a[1])}")
-            elif a[0] == "mkfile":
+            elif a[0] in ("mkfile", "mkempty"):
                 out.append(f"AMkfile {coq_string(a[1])}")
             elif a[0] == "mkdir":
                 out.append(f"AMkdirRel {coq_string(a[1])}")
@@ -431,7 +448,8 @@ class Script:
             elif a[0] == "delenv":
                 out.append(f"ADelenv {coq_string(a[1])}")
             elif a[0] == "setcfg":
-                key, tree = self.cfgrec.get(i, ({"n_cores": "n_cores", "nested": "XTB", "inplace": "ORCA", "keywords": "ORCA", "addkey": "c16_added"}[a[1]], ("leaf", "")))
+                key, tree = self.cfgrec.get(i, ({"n_cores": "n_cores", "nested": "XTB", "inplace": "ORCA", "keywords": "ORCA", "addkey": "c16_added",
+                              "steps_min": "min_step_size", "steps_max": "max_step_size", "max_core": "max_core", "cores": "n_cores"}[a[1]], ("leaf", "")))
                 out.append(f"ASetcfg {coq_string(key)} {ctree(tree)}")
             elif a[0] == "raise":
                 out.append(f"ARaise {a[1]}")
@@ -646,9 +664,9 @@ def property_failures(sb, case, res):
     if kinds == ["work_in"] and not any(x[0] == "chdir" for x in acts):
         d = tuple(b["cwd"]) + (fl[0][1],)
         existed = d in b["dirs"]
-        made = [x for x in acts if x[0] in ("mkfile", "mkdir")] if res["reached"] else []
+        made = [x for x in acts if x[0] in ("mkfile", "mkempty", "mkdir")] if res["reached"] else []
         raised_at = next((i for i, x in enumerate(acts) if x[0] == "raise"), len(acts))
-        made = [x for i, x in enumerate(acts) if x[0] in ("mkfile", "mkdir") and i < raised_at] if res["reached"] else []
+        made = [x for i, x in enumerate(acts) if x[0] in ("mkfile", "mkempty", "mkdir") and i < raised_at] if res["reached"] else []
         nonempty = bool(made) or (existed and case["pre"].get("workdir") == "full")
         if nonempty and d not in a["dirs"]:
             out.append(("work_in|nonempty-dir-removed", f"{'/'.join(d)} had entries but is gone ({res['txt']})"))
@@ -663,12 +681,19 @@ def property_failures(sb, case, res):
     if len(cwdk) == 1 and cwdk[0][0] == "tmp" and script_ok and res["reached"]:
         kept = cwdk[0][2]
         first_chdir = next((i for i, x in enumerate(acts) if x[0] == "chdir"), len(acts))
-        made_kept = [x[1] for i, x in enumerate(acts) if x[0] == "mkfile" and i < first_chdir and any(x[1].endswith(e) for e in kept)]
+        made = [(x[1], "made\n" if x[0] == "mkfile" else "") for i, x in enumerate(acts)
+                if x[0] in ("mkfile", "mkempty") and i < first_chdir and any(x[1].endswith(e) for e in kept)]
+        made_kept = [n for n, _ in made]
         here = tuple(b["cwd"])
         if res["out"] == "Ok":
-            for n in made_kept:
+            for n, content in dict(made).items():
                 if here + (n,) not in a["files"]:
-                    out.append(("work_in_tmp_dir|kept-files-not-copied", f"{n} was left in the scratch dir but is not in {'/'.join(here)}"))
+                    out.append(("work_in_tmp_dir|kept-files-not-copied", f"{n} ({len(content)} bytes) was left in the scratch dir but is not in {'/'.join(here)}"))
+                else:
+                    got = a["content"].get(here + (n,))
+                    if got != content:
+                        out.append(("work_in_tmp_dir|kept-files-not-copied",
+                                    f"{n} in {'/'.join(here)} holds {got!r}, the wrapped function left {content!r} in the scratch dir (a stale file was not overwritten)"))
         elif res["out"] == "(Raise EIsDir)" and no_fault:
             out.append(("work_in_tmp_dir|raises-on-kept-ext-directory-in-scratch",
                         f"the wrapped function succeeded and left a DIRECTORY with a kept extension in the scratch dir: the call raised {res['txt']}"
@@ -694,7 +719,7 @@ def outside_model(case):
 
 
 OWN_ACTS = {"env": {"setenv", "delenv"}, "cfg": {"setcfg"}, "mem": set(),
-            "work_in": {"mkfile", "mkdir", "chdir"}, "tmp": {"mkfile", "mkdir", "chdir"}}
+            "work_in": {"mkfile", "mkempty", "mkdir", "chdir"}, "tmp": {"mkfile", "mkempty", "mkdir", "chdir"}}
 
 
 def relevant(stack, acts, quick):
@@ -718,14 +743,17 @@ def scripts(full):
          [("mkdir", "sub"), ("mkfile", "x.xyz")],
          [("mkfile", "mol_opt.xyz"), ("mkfile", "calc.tar.gz"), ("mkfile", "calc.out"), ("mkfile", "gradient"), ("mkfile", "plain.xyz")],
          [("mkfile", "a.out"), ("mkdir", "m.out")],
-         [("setcfg", "keywords")], [("setcfg", "addkey")]]
+         [("setcfg", "keywords")], [("setcfg", "addkey")],
+         [("setcfg", "steps_min"), ("setcfg", "steps_max")], [("setcfg", "cores"), ("setcfg", "max_core"), ("setcfg", "steps_min")],
+         [("mkempty", "res.out"), ("mkfile", "full.xyz")], [("mkempty", "res.out"), ("mkempty", "empty.xyz"), ("chdir", ["away"])]]
     R = []
     for i in range(len(EXC_NAMES)):
         R.append([("raise", i)])
     R += [[away, ("raise", 0)], [("mkfile", "res.out"), ("raise", 1)], [("setenv", "C16_A", "callee"), ("raise", 2)],
           [("delenv", "C16_A"), ("raise", 3)], [("setcfg", "nested"), ("setcfg", "n_cores"), ("raise", 5)],
           [("setcfg", "inplace"), away, ("mkfile", "elsewhere.out"), ("raise", 4)],
-          [("setcfg", "keywords"), ("setcfg", "addkey"), ("raise", 1)]]
+          [("setcfg", "keywords"), ("setcfg", "addkey"), ("raise", 1)],
+          [("setcfg", "steps_min"), ("setcfg", "steps_max"), ("raise", 4)]]
     for i in BASE_EXC:      # every wrapper must restore what it manages when a BaseException passes through
         R += [[("setcfg", "nested"), ("raise", i)], [("setenv", "C16_A", "callee"), ("delenv", "C16_B"), ("raise", i)],
               [("mkfile", "res.out"), away, ("raise", i)]]
@@ -748,6 +776,7 @@ def single_variants():
     # file names that are not str (pathlib.Path / None): judged by the property oracles only (outside the model)
     V.append(([("tmp", ["<Path>in.xyz"], kept, False)], {"oracle_only": True}, {}))
     V.append(([("tmp", ["in.xyz", "<None>"], kept, False)], {"oracle_only": True}, {}))
+    V.append(([("tmp", [], kept, False)], {"stale": ["res.out", "empty.xyz"]}, {}))      # kept files overwrite stale ones
     # kept "extensions" that are not a single final .ext component: suffix, multi-dot, no dot, whole file name
     V.append(([("tmp", [], ["_opt.xyz", ".tar.gz", "out", "gradient"], False)], {}, {}))
     V.append(([("tmp", ["in.xyz", "missing.inp"], kept, False)], {}, {}))
